@@ -39,7 +39,7 @@ _NAN = float("nan")
 
 LEAF_REPS = {
     "int": {"i_neg": -5, "i_negone": -1, "i_zero": 0, "i_one": 1, "i_pos": 5, "i_huge": 10 ** 400, "i_neghuge": -(10 ** 400),
-            "i_digits": 10 ** 4400},
+            "i_digits": 10 ** 4400, "i_negdigits": -(10 ** 4400)},
     "bool": {"b_true": True, "b_false": False},
     "none": {"n_none": None},
     "float": {"f_nan": _NAN, "f_inf": math.inf, "f_ninf": -math.inf, "f_negzero": -0.0, "f_zero": 0.0,
@@ -113,7 +113,8 @@ def _random_member(kind: str, c: str, rng: random.Random):
         return {"i_neg": lambda: -rng.randint(1, 2 ** 70), "i_pos": lambda: rng.randint(1, 2 ** 70),
                 "i_huge": lambda: rng.randint(10 ** 309, 10 ** 600),
                 "i_neghuge": lambda: -rng.randint(10 ** 309, 10 ** 600),
-                "i_digits": lambda: 10 ** rng.randint(4301, 5000) + rng.randint(0, 99)}.get(c, lambda: LEAF_REPS[kind][c])()
+                "i_digits": lambda: 10 ** rng.randint(4301, 5000) + rng.randint(0, 99),
+                "i_negdigits": lambda: -(10 ** rng.randint(4301, 5000) + rng.randint(0, 99))}.get(c, lambda: LEAF_REPS[kind][c])()
     if kind == "float":
         def fin():
             while True:
@@ -245,10 +246,11 @@ def shape(n: cst.CSTNode) -> dict:
     """libcst expression -> abstract syntax of LiteralsOps (Int/Float/Neg/FloatCall/...)."""
     if isinstance(n, cst.Integer):
         # base 0: decimal / hex / octal / binary literals (power-of-two bases have no digit limit)
+        kind = {"0x": "HexInt", "0b": "BinInt", "0o": "OctInt"}.get(n.value[:2].lower(), "Int")
         try:
-            return node("Int", _leaf_class(int(n.value, 0)))
+            return node(kind, _leaf_class(int(n.value, 0)))
         except ValueError:  # decimal literal beyond the int string conversion limit
-            return node("Int", "i_digits")
+            return node(kind, "i_digits")
     if isinstance(n, cst.Float):
         return node("Float", _leaf_class(float(n.value)))
     if isinstance(n, cst.UnaryOperation) and isinstance(n.operator, cst.Minus):
